@@ -551,14 +551,25 @@ end
 section stmtsimL
 variable (P : Prog) (F : List (UInt32 × Nat)) (N : String → Prop) (cx : Sem.Ctx)
 
-/-- the reference semantics only changed the globals and the cells of the locals -/
-def SemFrame (σ σ' : Sem.St) : Prop := σ' = { σ with globals := σ'.globals, cells := σ'.cells }
+/-- the reference semantics only changed the globals and the cells of the locals (and counted the
+    calls of script functions) -/
+structure SemFrame (σ σ' : Sem.St) : Prop where
+  eq : σ' = { σ with globals := σ'.globals, cells := σ'.cells, calls := σ'.calls }
+  calls : σ.calls ≤ σ'.calls
 
-theorem SemFrame.refl (σ : Sem.St) : SemFrame σ σ := rfl
+theorem SemFrame.refl (σ : Sem.St) : SemFrame σ σ := ⟨rfl, Nat.le_refl _⟩
 theorem SemFrame.trans {a b c : Sem.St} (h1 : SemFrame a b) (h2 : SemFrame b c) : SemFrame a c := by
-  unfold SemFrame at *
-  rw [h1] at h2
-  exact h2
+  refine ⟨?_, Nat.le_trans h1.calls h2.calls⟩
+  have e1 := h1.eq
+  have e2 := h2.eq
+  rw [e1] at e2
+  exact e2
+/-- a step that only changes the globals and the cells -/
+theorem SemFrame.of_eq {σ σ' : Sem.St} (h : σ' = { σ with globals := σ'.globals, cells := σ'.cells }) :
+    SemFrame σ σ' := by
+  refine ⟨?_, ?_⟩
+  · rw [h]
+  · rw [h]; exact Nat.le_refl _
 
 /-- what the VM does for a piece of code `[pc, pc')` when the locals live at the bottom of the value
     stack -/
@@ -645,7 +656,7 @@ theorem simL_setGlobal (f : Nat) (L : LCtx) (n : String) (e : Card) : StmtSimL P
     have hsx0 := eval_scalar hout L env henv e he f σ σ1 env1 x hc hlr
     obtain ⟨rfl, rfl, n1, hn1, hsim1⟩ := eval_simL hout L env henv e he f σ σ1 env1 x pc m hc hc1 (by omega)
     have hlt := ecodeL_lt hc1
-    refine ⟨rfl, rfl, ⟨hlr.size, hlr.scalar, fun n' v hl => ?_⟩, n1 + 1, fun _ => by omega,
+    refine ⟨rfl, SemFrame.of_eq rfl, ⟨hlr.size, hlr.scalar, fun n' v hl => ?_⟩, n1 + 1, fun _ => by omega,
       fun vs cap hst hd hg hfr => ?_⟩
     · rw [glookup_gupd] at hl
       by_cases hnn : n' = n
@@ -893,7 +904,7 @@ theorem simL_setVar (f : Nat) (L : LCtx) (n : String) (e : Card) : StmtSimL P F 
     obtain ⟨rfl, rfl⟩ := hex
     have hlt := ecodeL_lt hc1
     have hi := lidx_lt hli
-    refine ⟨rfl, rfl, ⟨?_, ?_, hlr.gscalar⟩, n1 + 1, fun _ => by omega, fun vs cap hst hd hg hfr => ?_⟩
+    refine ⟨rfl, SemFrame.of_eq rfl, ⟨?_, ?_, hlr.gscalar⟩, n1 + 1, fun _ => by omega, fun vs cap hst hd hg hfr => ?_⟩
     · show (σ1.cells.set! i x).size = L.length
       simp [hlr.size]
     · intro j v hj
@@ -1073,7 +1084,7 @@ theorem tops_sim (d : Int) (f : Nat) (hsim : ∀ L c, StmtSimL P F N cx f L c) :
             obtain ⟨rfl, e2, hlr2, n2, hn2, hsim2⟩ :=
               tops_sim d (f' + 1) hsim cs (L ++ [(n, d)]) hs.2 _ σ' env' (m + 5) pc' hex hc2 hsz
                 (fun n hn => hN n (Or.inr hn)) hlr1
-            refine ⟨rfl, SemFrame.trans (show SemFrame σe (Sem.newCell σe x).1 from rfl) e2, hlr2, n1 + 1 + n2, ?_,
+            refine ⟨rfl, SemFrame.trans (SemFrame.of_eq (σ := σe) (σ' := (Sem.newCell σe x).1) rfl) e2, hlr2, n1 + 1 + n2, ?_,
               fun vs cap hst hd hg hfr => ?_⟩
             · intro hl
               simp only [loopFrees, Bool.and_eq_true] at hl
@@ -1110,6 +1121,7 @@ mutual
     | .bin .ifTrue c b => isExpr c && isStmtB b
     | .bin .ifFalse c b => isExpr c && isStmtB b
     | .bin .while c b => isExpr c && isStmtB b
+    | .repeat _ n b => isExpr n && isStmtB b
     | .tri .ifElse c t e => isExpr c && isStmtB t && isStmtB e
     | .composite _ cs => isStmtsB cs
     | .comment _ => true
@@ -1177,6 +1189,83 @@ theorem isStmtsB_mem : ∀ {cs : List Card}, isStmtsB cs = true → ∀ c ∈ cs
     rcases List.mem_cons.1 hc with rfl | hc
     · exact h.1
     · exact isStmtsB_mem h.2 c hc
+
+/-! ### `Repeat` in the reference semantics -/
+
+theorem exec_repeat (cx : Sem.Ctx) (f : Nat) (env : Sem.Env) (s : Sem.St) (i : Option String) (n b : Card) :
+    Sem.exec cx (f + 1) env s (.repeat i n b) =
+    (match Sem.eval cx f env s n with
+      | (s, env, .ok nv) =>
+        match Sem.repeatLoop (fun scope s => Sem.exec cx f (scope :: env) s b) i nv f 0 s with
+        | (s, r) => (s, env, r)
+      | (s, env, .ret v) => (s, env, .ret v)
+      | (s, env, .exit) => (s, env, .exit)
+      | (s, env, .err e) => (s, env, .err e)
+      | (s, env, .unspecified w) => (s, env, .unspecified w)
+      | (s, env, .outOfFuel) => (s, env, .outOfFuel)) := rfl
+
+/-- the store and the scope of one iteration: a fresh cell with a copy of the counter for the loop
+    variable -/
+def repScope (i : Option String) (k : Int64) (s : Sem.St) : Sem.St × List (String × Nat) :=
+  match i with
+  | some var => ((Sem.newCell s (.int k)).1, [(var, (Sem.newCell s (.int k)).2)])
+  | none => (s, [])
+
+theorem repeatLoop_succ (body : List (String × Nat) → Sem.St → Sem.St × Sem.Env × Sem.Res Unit) (i : Option String)
+    (nv : Val) (gas : Nat) (k : Int64) (s : Sem.St) :
+    Sem.repeatLoop body i nv (gas + 1) k s =
+      if OVal.vlt Sem.F (.int k) (Sem.deepV s nv) then
+        match body (repScope i k s).2 (repScope i k s).1 with
+        | (s, _, .ok ()) => Sem.repeatLoop body i nv gas (k + 1) s
+        | (s, _, .ret v) => (s, .ret v)
+        | (s, _, .exit) => (s, .exit)
+        | (s, _, .err e) => (s, .err e)
+        | (s, _, .unspecified w) => (s, .unspecified w)
+        | (s, _, .outOfFuel) => (s, .outOfFuel)
+      else (s, .ok ()) := by
+  cases i <;> rfl
+
+theorem repeatLoop_benign {body : List (String × Nat) → Sem.St → Sem.St × Sem.Env × Sem.Res Unit}
+    (hb : ∀ scope s, benign (body scope s).2.2) (i : Option String) (nv : Val) :
+    ∀ (gas : Nat) (k : Int64) (s : Sem.St), benign (Sem.repeatLoop body i nv gas k s).2 := by
+  intro gas
+  induction gas with
+  | zero => intro k s; trivial
+  | succ gas ih =>
+    intro k s
+    rw [repeatLoop_succ]
+    split
+    · have h := hb (repScope i k s).2 (repScope i k s).1
+      rcases hc : body (repScope i k s).2 (repScope i k s).1 with ⟨s2, e2, r2⟩
+      rw [hc] at h
+      cases r2 with
+      | ok u => cases u; exact ih (k + 1) s2
+      | _ => first | trivial | exact h
+    · trivial
+
+theorem repeatLoop_fuel_mono {body body' : List (String × Nat) → Sem.St → Sem.St × Sem.Env × Sem.Res Unit}
+    (hb : ∀ scope s, ¬ isOOF (body scope s).2.2 → body' scope s = body scope s) (i : Option String) (nv : Val) :
+    ∀ (gas : Nat) (k : Int64) (s : Sem.St), ¬ isOOF (Sem.repeatLoop body i nv gas k s).2 →
+      ∀ gas', gas ≤ gas' → Sem.repeatLoop body' i nv gas' k s = Sem.repeatLoop body i nv gas k s := by
+  intro gas
+  induction gas with
+  | zero => intro k s h; exact absurd trivial h
+  | succ gas ih =>
+    intro k s h gas' hg
+    obtain ⟨g', rfl⟩ : ∃ g', gas' = g' + 1 := ⟨gas' - 1, by omega⟩
+    rw [repeatLoop_succ] at h ⊢
+    rw [repeatLoop_succ]
+    split at h
+    · rename_i ht
+      simp only [if_pos ht]
+      have hbb := hb (repScope i k s).2 (repScope i k s).1
+      rcases hc : body (repScope i k s).2 (repScope i k s).1 with ⟨s2, e2, r2⟩
+      rw [hc] at h hbb
+      rw [hbb (by cases r2 <;> first | exact h | exact fun x => x)]
+      cases r2 with
+      | ok u => cases u; simp only at h ⊢; exact ih (k + 1) s2 h g' (by omega)
+      | _ => rfl
+    · rename_i ht; simp only [if_neg ht]
 
 theorem exec_benignB (cx : Sem.Ctx) (hout : cx.outer = []) : ∀ (fuel : Nat) (c : Card), isStmtB c = true → ∀ (env : Sem.Env) (σ : Sem.St),
     benign (Sem.exec cx fuel env σ c).2.2 := by
@@ -1277,6 +1366,21 @@ theorem exec_benignB (cx : Sem.Ctx) (hout : cx.outer = []) : ∀ (fuel : Nat) (c
           · trivial
         | _ => first | trivial | exact he
       | _ => simp [isStmtB] at hs
+    | «repeat» i n b =>
+      simp only [isStmtB, Bool.and_eq_true] at hs
+      rw [exec_repeat]
+      have he := eval_benign cx n hs.1 f env σ
+      rcases hc : Sem.eval cx f env σ n with ⟨σ1, env1, r1⟩
+      rw [hc] at he
+      cases r1 with
+      | ok nv =>
+        simp only
+        have hl := repeatLoop_benign (body := fun scope s => Sem.exec cx f (scope :: env1) s b)
+          (fun scope s => ih b hs.2 (scope :: env1) s) i nv f 0 σ1
+        rcases hc2 : Sem.repeatLoop (fun scope s => Sem.exec cx f (scope :: env1) s b) i nv f 0 σ1 with ⟨σ2, r2⟩
+        rw [hc2] at hl
+        exact hl
+      | _ => first | trivial | exact he
     | _ => simp [isStmtB] at hs
 
 
@@ -1374,7 +1478,7 @@ theorem compile_correct_coreL (m std : Module) (limit fuel : Nat) (cfg : Config)
   rw [vm_run_of_reach hcalls (hr.trans hrP rfl) hexit hend hmax]
   have hsame := hsameK.trans hsameP
   have hlog : vsP.hostLog = [] := by rw [hsame]; rfl
-  have hσlog : σ'.log = [] := by rw [hσ]
+  have hσlog : σ'.log = [] := by rw [hσ.eq]
   refine ⟨rfl, ?_, fun g hg => ?_⟩
   · show vsP.hostLog = σ'.log
     rw [hlog, hσlog]
@@ -1553,6 +1657,24 @@ theorem exec_fuel_monoB (cx : Sem.Ctx) (hout : cx.outer = []) : ∀ (f : Nat) (c
           · rename_i ht; simp only [if_neg ht]
         | _ => rfl
       | _ => simp [isStmtB] at hs
+    | «repeat» i n b =>
+      simp only [isStmtB, Bool.and_eq_true] at hs
+      rw [exec_repeat] at h ⊢
+      rw [exec_repeat]
+      have ihe := eval_fuel_mono cx n hs.1 f env σ
+      rcases hc : Sem.eval cx f env σ n with ⟨σ1, env1, r1⟩
+      rw [hc] at h ihe
+      rw [ihe (by cases r1 <;> first | exact h | exact fun x => x) k hk]
+      cases r1 with
+      | ok nv =>
+        simp only at h ⊢
+        have hl := repeatLoop_fuel_mono (body := fun scope s => Sem.exec cx f (scope :: env1) s b)
+          (body' := fun scope s => Sem.exec cx k (scope :: env1) s b)
+          (fun scope s hn => ih b hs.2 (scope :: env1) s hn k hk) i nv f 0 σ1
+        rcases hc2 : Sem.repeatLoop (fun scope s => Sem.exec cx f (scope :: env1) s b) i nv f 0 σ1 with ⟨σ2, r2⟩
+        rw [hc2] at h hl
+        rw [hl h k hk]
+      | _ => rfl
     | _ => simp [isStmtB] at hs
 
 
@@ -1574,6 +1696,232 @@ theorem sem_run_fuel_mono_F2 (m std : Module) (hfrag : InF2 m = true) (f f' : Na
     execList_fuel_mono nf.2.cards
       (fun c hc env σ hnc => exec_fuel_monoB cx hout f c (isStmtsB_mem hB' c hc) env σ hnc f' hle) [[]] {} hn
   rw [this]
+
+/-! ## the statements of the fragments without calls do not change the call counter -/
+
+theorem readVar_state (cx : Sem.Ctx) (env : Sem.Env) (σ : Sem.St) {n : String} (hn : simpleName n = true) :
+    (Sem.readVar cx env σ n).1 = σ := by
+  simp only [simpleName, Bool.and_eq_true, decide_eq_true_eq, Bool.not_eq_true'] at hn
+  obtain ⟨hsplit, hne⟩ := hn
+  unfold Sem.readVar
+  simp only [hsplit, List.filter_nil, hne, Bool.false_eq_true, if_false, List.foldl_nil]
+  split <;> rfl
+
+theorem eval_state (cx : Sem.Ctx) : ∀ (e : Card), isExpr e = true → ∀ (fuel : Nat) (env : Sem.Env) (σ : Sem.St),
+    (Sem.eval cx fuel env σ e).1 = σ
+  | .scalarInt _ => by intro _ fuel env σ; cases fuel <;> rfl
+  | .scalarFloat _ => by intro _ fuel env σ; cases fuel <;> rfl
+  | .scalarNil => by intro _ fuel env σ; cases fuel <;> rfl
+  | .readVar n => by
+    intro he fuel env σ
+    cases fuel with
+    | zero => rfl
+    | succ f => rw [eval_readVar]; exact readVar_state cx env σ he
+  | .un .not c => by
+    intro he fuel env σ
+    simp only [isExpr] at he
+    cases fuel with
+    | zero => rfl
+    | succ f =>
+      rw [eval_not]
+      have := eval_state cx c he f env σ
+      rcases hc : Sem.eval cx f env σ c with ⟨σ1, env1, r1⟩
+      rw [hc] at this
+      cases r1 <;> exact this
+  | .bin k a b => by
+    intro he fuel env σ
+    simp only [isExpr, Bool.and_eq_true] at he
+    obtain ⟨⟨hk, hea⟩, heb⟩ := he
+    cases fuel with
+    | zero => rfl
+    | succ f =>
+      rw [eval_bin _ _ _ _ k hk]
+      have ha := eval_state cx a hea f env σ
+      rcases hc : Sem.eval cx f env σ a with ⟨σ1, env1, r1⟩
+      rw [hc] at ha
+      simp only at ha
+      subst ha
+      cases r1 with
+      | ok va =>
+        simp only
+        have hb := eval_state cx b heb f env1 σ1
+        rcases hc2 : Sem.eval cx f env1 σ1 b with ⟨σ2, env2, r2⟩
+        rw [hc2] at hb
+        cases r2 <;> exact hb
+      | _ => rfl
+  | .un .ret _ | .un .len _ | .un .popTable _ | .tri _ _ _ _ | .createTable | .abort | .stringLiteral _
+  | .comment _ | .function _ | .nativeFunction _ | .setVar _ _ | .setGlobalVar _ _ | .callNative _ _
+  | .call _ _ | .repeat _ _ _ | .forEach _ _ _ _ _ | .composite _ _ | .dynamicCall _ _ | .array _
+  | .closure _ _ => by
+    intro he
+    simp [isExpr] at he
+
+theorem execList_calls {ex : Sem.Env → Sem.St → Card → Sem.St × Sem.Env × Sem.Res Unit}
+    : ∀ (cs : List Card), (∀ c ∈ cs, ∀ env σ, (ex env σ c).1.calls = σ.calls) → ∀ (env : Sem.Env) (σ : Sem.St),
+      (Sem.execListWith ex env σ cs).1.calls = σ.calls
+  | [], _, env, σ => rfl
+  | c :: cs, h, env, σ => by
+    simp only [Sem.execListWith]
+    have hc := h c (List.mem_cons_self ..) env σ
+    rcases he : ex env σ c with ⟨σ1, env1, r1⟩
+    rw [he] at hc
+    cases r1 with
+    | ok u =>
+      cases u
+      exact (execList_calls cs (fun c hc => h c (List.mem_cons_of_mem _ hc)) env1 σ1).trans hc
+    | _ => exact hc
+
+theorem repeatLoop_calls {body : List (String × Nat) → Sem.St → Sem.St × Sem.Env × Sem.Res Unit}
+    (hb : ∀ scope s, (body scope s).1.calls = s.calls) (i : Option String) (nv : Val) :
+    ∀ (gas : Nat) (k : Int64) (s : Sem.St), (Sem.repeatLoop body i nv gas k s).1.calls = s.calls := by
+  intro gas
+  induction gas with
+  | zero => intro k s; rfl
+  | succ gas ih =>
+    intro k s
+    rw [repeatLoop_succ]
+    have hsc : (repScope i k s).1.calls = s.calls := by cases i <;> rfl
+    split
+    · have h := hb (repScope i k s).2 (repScope i k s).1
+      rcases hc : body (repScope i k s).2 (repScope i k s).1 with ⟨s2, e2, r2⟩
+      rw [hc] at h
+      simp only at h
+      cases r2 with
+      | ok u => cases u; exact (ih (k + 1) s2).trans (h.trans hsc)
+      | _ => exact h.trans hsc
+    · rfl
+
+theorem exec_callsB (cx : Sem.Ctx) (hout : cx.outer = []) : ∀ (fuel : Nat) (c : Card), isStmtB c = true →
+    ∀ (env : Sem.Env) (σ : Sem.St), (Sem.exec cx fuel env σ c).1.calls = σ.calls := by
+  intro fuel
+  induction fuel with
+  | zero => intro c _ env σ; rw [exec_zero]
+  | succ f ih =>
+    intro c hs env σ
+    cases c with
+    | comment t => rfl
+    | composite t cs =>
+      rw [exec_composite]
+      simp only [isStmtB] at hs
+      exact execList_calls cs (fun c hc env σ => ih c (isStmtsB_mem hs c hc) env σ) env σ
+    | setVar n e =>
+      simp only [isStmtB, Bool.and_eq_true] at hs
+      rw [exec_setVar cx hout f env σ e hs.1]
+      have he := eval_state cx e hs.2 f env σ
+      rcases hc : Sem.eval cx f env σ e with ⟨σ1, env1, r1⟩
+      rw [hc] at he
+      simp only at he
+      subst he
+      cases r1 with
+      | ok x =>
+        simp only
+        rcases Sem.lookupEnv env1 n with _ | c
+        · cases env1 <;> rfl
+        · rfl
+      | _ => rfl
+    | setGlobalVar n e =>
+      simp only [isStmtB, Bool.and_eq_true, Bool.not_eq_true'] at hs
+      rw [exec_setGlobal]
+      have he := eval_state cx e hs.2 f env σ
+      rcases hc : Sem.eval cx f env σ e with ⟨σ1, env1, r1⟩
+      rw [hc] at he
+      simp only at he
+      subst he
+      cases r1 with
+      | ok x => simp only [hs.1]; rfl
+      | _ => rfl
+    | tri k a b c =>
+      cases k with
+      | setProperty => simp [isStmtB] at hs
+      | ifElse =>
+        simp only [isStmtB, Bool.and_eq_true] at hs
+        rw [exec_ifElse]
+        have he := eval_state cx a hs.1.1 f env σ
+        rcases hc : Sem.eval cx f env σ a with ⟨σ1, env1, r1⟩
+        rw [hc] at he
+        simp only at he
+        subst he
+        cases r1 with
+        | ok x =>
+          simp only
+          split
+          · exact ih b hs.1.2 env1 σ1
+          · exact ih c hs.2 env1 σ1
+        | _ => rfl
+    | bin k a b =>
+      cases k with
+      | ifTrue =>
+        simp only [isStmtB, Bool.and_eq_true] at hs
+        rw [exec_ifTrue]
+        have he := eval_state cx a hs.1 f env σ
+        rcases hc : Sem.eval cx f env σ a with ⟨σ1, env1, r1⟩
+        rw [hc] at he
+        simp only at he
+        subst he
+        cases r1 with
+        | ok x =>
+          simp only
+          split
+          · exact ih b hs.2 env1 σ1
+          · rfl
+        | _ => rfl
+      | ifFalse =>
+        simp only [isStmtB, Bool.and_eq_true] at hs
+        rw [exec_ifFalse]
+        have he := eval_state cx a hs.1 f env σ
+        rcases hc : Sem.eval cx f env σ a with ⟨σ1, env1, r1⟩
+        rw [hc] at he
+        simp only at he
+        subst he
+        cases r1 with
+        | ok x =>
+          simp only
+          split
+          · rfl
+          · exact ih b hs.2 env1 σ1
+        | _ => rfl
+      | «while» =>
+        have hs0 := hs
+        simp only [isStmtB, Bool.and_eq_true] at hs
+        rw [exec_while]
+        have he := eval_state cx a hs.1 f env σ
+        rcases hc : Sem.eval cx f env σ a with ⟨σ1, env1, r1⟩
+        rw [hc] at he
+        simp only at he
+        subst he
+        cases r1 with
+        | ok x =>
+          simp only
+          split
+          · have hb := ih b hs.2 ([] :: env1) σ1
+            rcases hc2 : Sem.exec cx f ([] :: env1) σ1 b with ⟨σ2, env2, r2⟩
+            rw [hc2] at hb
+            simp only at hb
+            cases r2 with
+            | ok u => cases u; exact (ih _ hs0 env1 σ2).trans hb
+            | _ => exact hb
+          · rfl
+        | _ => rfl
+      | _ => simp [isStmtB] at hs
+    | «repeat» i n b =>
+      simp only [isStmtB, Bool.and_eq_true] at hs
+      rw [exec_repeat]
+      have he := eval_state cx n hs.1 f env σ
+      rcases hc : Sem.eval cx f env σ n with ⟨σ1, env1, r1⟩
+      rw [hc] at he
+      simp only at he
+      subst he
+      cases r1 with
+      | ok nv =>
+        simp only
+        have hl := repeatLoop_calls (body := fun scope s => Sem.exec cx f (scope :: env1) s b)
+          (fun scope s => ih b hs.2 (scope :: env1) s) i nv f 0 σ1
+        rcases hc2 : Sem.repeatLoop (fun scope s => Sem.exec cx f (scope :: env1) s b) i nv f 0 σ1 with ⟨σ2, r2⟩
+        rw [hc2] at hl
+        exact hl
+      | _ => rfl
+    | _ => simp [isStmtB] at hs
+
 
 /-! ### an example with locals (shown by evaluation: `String.splitOn` does not reduce in the kernel) -/
 
